@@ -26,5 +26,7 @@ CompileOk == st = "submitted" /\ C.outcome = "ok" /\ st' = "done" /\ UNCHANGED <
 CompileErrors == st = "submitted" /\ C.outcome = "errors" /\ Len(C.errs) > 0 /\ st' = "done" /\ UNCHANGED <<blk, ci>>
 Next == Pick \/ CompileOk \/ CompileErrors \/ (st = "done" /\ UNCHANGED vars)
 Spec == Init /\ [][Next]_vars
+(* a crash or a hang has no transition; stated over ENABLED so that TLC reports it for every case under -continue *)
+Terminates == st = "submitted" => ENABLED (CompileOk \/ CompileErrors)
 DiagnosticsInRange == st = "done" => \A k \in 1..Len(C.errs) : ErrOK(C, C.errs[k])
 =============================================================================
